@@ -206,7 +206,74 @@ def impl_events(ctx):
                                            sparse=np.rint(sv).astype(int).tolist(), sparseMulti=int(smulti[i, j]),
                                            exact=exact, addrOK=bool(addr_ok), convertOK=conv_ok))
                         ctx.count(("impl", tuple(map(tuple, Gs.tolist())), D, tuple(ds), noisy))
+    events += large_table_events(ctx, rng, nprng)
     ctx.extra["impl_lattices"] = n_lat
+    return events
+
+
+def large_table_events(ctx, rng, nprng):
+    """Tables of many atoms (a ladder of sizes up to a few thousand supercell atoms): the kernels' work sharing and the
+    running addresses of the dense table only become non-trivial there.  The whole table is checked for its
+    address/convert facts; a sample of pairs spread over the whole table goes to TLC like the small ones."""
+    events = []
+    sizes = [(6, 200), (12, 1100)] if ctx.quick else [(6, 216), (8, 500), (12, 1100), (12, 1728), (14, 2600)]
+    forms = [SPECIAL_FORMS[0], SPECIAL_FORMS[6]] if ctx.quick else [SPECIAL_FORMS[i] for i in (0, 1, 2, 6, 9)]
+    sizes_seen = []
+    for G in forms:
+        for D, n_to in sizes:
+            U = np.eye(3, dtype=int)
+            Gs = np.array(G)
+            Ls = xtal.lattice_from_gram(G, a=1.7 * D / 2, rng=nprng)
+            h = D // 2
+            pts = {(0, 0, 0), (h, h, h), (h, 0, 0), (0, h, h)}
+            allp = list(itertools.product(range(D), repeat=3))
+            rng.shuffle(allp)
+            for p_ in allp:
+                if len(pts) >= n_to:
+                    break
+                pts.add(p_)
+            pts = sorted(pts)
+            pos_to = np.array(pts, dtype=float) / D
+            from_idx = [0, len(pts) // 2, len(pts) - 1]
+            pos_from = pos_to[from_idx]
+            try:
+                dsv, dmulti = get_smallest_vectors(Ls, pos_to, pos_from, store_dense_svecs=True)
+                ssv, smulti = get_smallest_vectors(Ls, pos_to, pos_from, store_dense_svecs=False)
+            except Exception as e:
+                ctx.violation("impl:exception", "get_smallest_vectors raised %s" % type(e).__name__,
+                              dict(G=G, D=D, n_to=len(pts), error=repr(e)))
+                continue
+            sizes_seen.append(len(pts))
+            flat = dmulti.reshape(-1, 2)
+            run_addr = np.concatenate([[0], np.cumsum(flat[:, 0])])
+            addr_ok = bool(np.array_equal(flat[:, 1], run_addr[:-1]) and run_addr[-1] == len(dsv))
+            c_dsv, c_dmulti = sparse_to_dense_svecs(ssv, smulti)
+            c_ssv, c_smulti = dense_to_sparse_svecs(dsv, dmulti)
+            conv_ok = bool(np.array_equal(c_dmulti, dmulti) and c_dsv.shape == dsv.shape
+                           and np.allclose(c_dsv, dsv, atol=1e-12) and np.array_equal(c_smulti, smulti))
+            # pairs spread over the whole table: both ends, and a stratified random sample
+            n_s = 120 if ctx.quick else 400
+            idx = sorted(set([0, 1, len(pts) - 1, len(pts) - 2] +
+                             [min(len(pts) - 1, int((k + rng.random()) * len(pts) / n_s)) for k in range(n_s)]))
+            for i in idx:
+                for j in range(len(from_idx)):
+                    ds = [pts[i][k] - pts[from_idx[j]][k] for k in range(3)]
+                    B = box_for(G, D, ds)
+                    if B is None:
+                        ctx.extra["skipped_overflow"] = ctx.extra.get("skipped_overflow", 0) + 1
+                        continue
+                    m, a = int(dmulti[i, j, 0]), int(dmulti[i, j, 1])
+                    inb = 0 <= a and a + m <= len(dsv) and 0 <= m <= 27
+                    dv = (dsv[a:a + m] if inb else np.zeros((0, 3))) * D
+                    sv = ssv[i, j, :int(smulti[i, j])] * D
+                    exact = bool(inb and np.abs(dv - np.rint(dv)).max(initial=0) < 1e-4
+                                 and np.abs(sv - np.rint(sv)).max(initial=0) < 1e-4)
+                    events.append(dict(kind="impl", noisy=False, G=G, U=U.tolist(), Gs=Gs.tolist(), D=D, ds=ds, B=B,
+                                       dense=np.rint(dv).astype(int).tolist(), denseMulti=m,
+                                       sparse=np.rint(sv).astype(int).tolist(), sparseMulti=int(smulti[i, j]),
+                                       exact=exact, addrOK=addr_ok, convertOK=conv_ok))
+                    ctx.count(("impl-large", tuple(map(tuple, G)), D, len(pts), tuple(ds)))
+    ctx.extra["large_table_sizes"] = sizes_seen
     return events
 
 
